@@ -43,7 +43,7 @@ def cases(tier, seed):
         fam = gen.pick(rng, ["qp_quartic", "qp_softplus", "rosenbrock", "qp", "rosenbrock", "qp_quartic"])
         yield {"kind": "traj", "problem": {"family": fam, "n": int(rng.integers(1, 9)), "seed": int(rng.integers(0, 2**31 - 1)),
                                            "cond": float(np.exp(rng.uniform(0, np.log(1e3)))), "box": "none", "start": "interior"},
-               "maxcor": int(rng.integers(1, 9)), "x0scale": float(gen.pick(rng, [0.5, 1.0, 2.0]))}
+               "maxcor": int(rng.integers(1, 9)), "x0scale": float(gen.pick(rng, [0.5, 1.0, 2.0])), "hostile": bool(i % 3 == 0)}
     npb = 160 if tier == "quick" else 4000
     for i in range(npb):
         yield {"kind": "probe", "rho": float(gen.pick(rng, [2e-4, 5e-4, 8e-4, 1.3e-3, 2e-3, 5e-3])), "sigma": float(gen.pick(rng, [0.6, 0.8, 0.95])),
@@ -82,8 +82,9 @@ def scipy_trace(f, g, x0, maxcor, maxiter=12, bounds=None, gtol=1e-14):
     return pts, vals, res
 
 
-def port_trace(f, g, x0, maxcor, maxiter=12):
-    """Runs the port with interception of its line searches; returns (points, searches)."""
+def port_trace(f, g, x0, maxcor, maxiter=12, hostile=False):
+    """Runs the port with interception of its line searches; returns (points, searches).
+    hostile: the user's gradient is written into one reused work array (as many simulation codes do)."""
     import lbfgsb.main as M
     from lbfgsb import minimize_lbfgsb
 
@@ -134,7 +135,18 @@ def port_trace(f, g, x0, maxcor, maxiter=12):
     try:
         with probes.Intercept(M, ["line_search", "update_lbfgs_matrices"], copy_args=False, copy_ret=False, on_call=pre) as ic:
             ic.on_event = on_event
-            res = minimize_lbfgsb(x0=np.array(x0, copy=True), fun=fun, jac=lambda x: g(np.array(x, copy=True)), maxcor=maxcor, ftol=0.0,
+            gbuf = {}
+
+            def jac(x):
+                v = g(np.array(x, copy=True))
+                if not hostile:
+                    return v
+                if "b" not in gbuf:
+                    gbuf["b"] = np.empty_like(v)
+                gbuf["b"][:] = v
+                return gbuf["b"]
+
+            res = minimize_lbfgsb(x0=np.array(x0, copy=True), fun=fun, jac=jac, maxcor=maxcor, ftol=0.0,
                                   gtol=1e-14, maxiter=maxiter)
     finally:
         np.seterr(**old)
@@ -247,7 +259,9 @@ def run(spec):
             x0 = x0 + 3.0 / max(np.linalg.norm(x0), 1e-3) * x0 + 1.0
         name = f"{P.spec['family']} n={P.n} maxcor={spec['maxcor']}"
         tags = dict(family=P.spec["family"], kind="traj")
-        ppts, searches, pres, consts, ic = port_trace(P.f, P.g, x0, spec["maxcor"])
+        ppts, searches, pres, consts, ic = port_trace(P.f, P.g, x0, spec["maxcor"], hostile=bool(spec.get("hostile")))
+        if spec.get("hostile"):
+            out.count("trajectories_with_reused_gradient_buffer")
         spts, svals, sres = scipy_trace(P.f, P.g, x0, spec["maxcor"])
         out.count("trajectories")
         ncomp, multi, why = compare_traces(out, name, ppts, searches, spts, svals, tags, maxcor=spec["maxcor"],
